@@ -184,21 +184,29 @@ namespace embedded_pairing::bls12_381 {
         tmp2.add(a.c0, a.c1);
         tmp3.add(a.c0, a.c2);
 
-        this->c0.add(b.c1, b.c2);
-        this->c0.multiply(this->c0, tmp1);
+        /*
+         * Read everything we need from b before the first write to this, in
+         * case this and b are aliased.
+         */
+        Fq2 tmp4;
+        Fq2 tmp5;
+        Fq2 tmp6;
+        tmp4.add(b.c1, b.c2);
+        tmp5.add(b.c0, b.c1);
+        tmp6.add(b.c0, b.c2);
+
+        this->c0.multiply(tmp4, tmp1);
         this->c0.subtract(this->c0, b_b);
         this->c0.subtract(this->c0, c_c);
         this->c0.multiply_by_nonresidue(this->c0);
         this->c0.add(this->c0, a_a);
 
-        this->c2.add(b.c0, b.c2);
-        this->c2.multiply(this->c2, tmp3);
+        this->c2.multiply(tmp6, tmp3);
         this->c2.subtract(this->c2, a_a);
         this->c2.add(this->c2, b_b);
         this->c2.subtract(this->c2, c_c);
 
-        this->c1.add(b.c0, b.c1);
-        this->c1.multiply(this->c1, tmp2);
+        this->c1.multiply(tmp5, tmp2);
         this->c1.subtract(this->c1, a_a);
         this->c1.subtract(this->c1, b_b);
         c_c.multiply_by_nonresidue(c_c);
